@@ -39,6 +39,9 @@ DECIDING = {
     "action_async_callable": "async callable",
     "action_raising_callable": "callable raising Exception (fallback to cancellation)",
     "action_raising_base_callable": "callable raising BaseException (fallback to cancellation)",
+    "action_raising_cancelled_callable": "callable failing with the backend's cancellation exception (asyncio) / KeyboardInterrupt (trio) although the teardown is not cancelled",
+    "services_started_on_the_owner_while_a_child_context_was_current": "start_service_task called on the owner explicitly while another context was current",
+    "owner_blocks_ending_with_an_exception": "owner blocks left by an exception (an ordinary, uncancelled teardown)",
     "action_raising_async_callable": "asynchronous callable that raises while awaited (fallback to cancellation)",
     "registrations_made_from_a_component": "programs whose registrations are made from a component's start() (shortcuts through the component context)",
     "service_state_at_teardown_waiting": "task still running when its finalizer starts",
